@@ -12,7 +12,8 @@
     * `_apply_default_and_update_required_not_to_include_fields_with_defaults` → `ownRequired`
     * `get_base_info`                            → `baseInfoOf`
     * `make_signature`                           → `makeSignature`
-    * `StructMeta.__new__` (the part that computes `_required`, `_constants`, `__signature__`) → `runtimeSig`, `clsRequired`
+    * `StructMeta.__new__` (the part that computes `_required`, `_constants`, `__signature__`; `**kwargs` from the
+      inherited `getattr` since the repair of "inherited-additional-properties*") → `runtimeSig`, `clsRequired`
     * `Structure.__init__` binding + `Structure.__setattr__` non-field guard → `runtimeAdmitsExtra`
 
   Abstractions (made by `harness/suites/stub.py:dump_classinfo`, checked per case):
@@ -126,9 +127,23 @@ def ownRequired (d : Decl) : List String :=
 
 /-! ### runtime signature -/
 
-/-- inner loop of `get_base_info`: `if k not in bases_params: (required if no default); bases_params[k] = param` -/
+/-- `getattr(cls, "_additional_properties", default)`: first class of the MRO that declares it -/
+def addlLookup : List Decl → Option Bool
+  | [] => none
+  | d :: rest => match d.addl with
+    | some b => some b
+    | none => addlLookup rest
+
+
+/-- `bases_params[k] = param` for a key that is already there (the position is kept) -/
+def replaceP (ps : List Param) (p : Param) : List Param := ps.map (fun q => if q.name = p.name then p else q)
+
+/-- inner loop of `get_base_info`: `if k not in bases_params: (required if no default); bases_params[k] = param`;
+    since fix d18be04 `elif k not in bases_required and <param has no default>: bases_required.append(k);
+    bases_params[k] = param` — a later base that requires what an earlier base declares optional wins -/
 def bpStep (acc : List Param × List String) (p : Param) : List Param × List String :=
-  if acc.1.any (fun q => q.name = p.name) then acc
+  if acc.1.any (fun q => q.name = p.name) then
+    (if !acc.2.contains p.name && !p.hasDefault then (replaceP acc.1 p, acc.2 ++ [p.name]) else acc)
   else (acc.1 ++ [p], if p.hasDefault then acc.2 else acc.2 ++ [p.name])
 
 /-- `get_base_info` on the signatures of the base classes -/
@@ -153,16 +168,24 @@ def makeSignature (own : List String) (required : List String) (addl : Bool)
   let defaultBases := bp.filter (fun p => !required.contains p.name && !breq.contains p.name && !consts.contains p.name)
   ⟨dictMerge nonDefaultBases nonDefaultClass ++ dictMerge defaultBases defaultClass, addl⟩
 
+/-- since fix 1cc748e: `cls_dict["_required"] = [r for r in cls_dict["_required"] if <the field r finally denotes,
+    inherited ones included, has no default>]` -/
+def ownRequiredF (d : Decl) (allF : List FieldInfo) : List String :=
+  (ownRequired d).filter (fun n => !(((lookupF allF n).map (·.hasDefault)).getD false))
+
 /-- the non-recursive part of `StructMeta.__new__`: signature of a class from its own declaration, its
     complete field table and the signatures of its bases -/
-def sigOf (dflt : Bool) (d : Decl) (allF : List FieldInfo) (baseSigs : List Sig) : Sig :=
-  makeSignature (d.fields.map (·.name)) (ownRequired d) (d.addl.getD dflt)
+def sigOf (addl : Bool) (d : Decl) (allF : List FieldInfo) (baseSigs : List Sig) : Sig :=
+  makeSignature (d.fields.map (·.name)) (ownRequiredF d allF) addl
     (baseInfoOf baseSigs).1 (baseInfoOf baseSigs).2 (constNames allF)
 
 mutual
-/-- `cls.__signature__`; `dflt` is `TypedPyDefaults.additional_properties_default` -/
+/-- `cls.__signature__`; `dflt` is `TypedPyDefaults.additional_properties_default`.  Since the repair of the
+    findings "inherited-additional-properties*" `StructMeta.__new__` reads the flag with `getattr` on the new class
+    (first class of the MRO that declares it), as `Structure.__setattr__` and the stub generator always did. -/
 def runtimeSig (dflt : Bool) : ClassInfo → Sig
-  | .mk d bases => sigOf dflt d (fieldsByName (d :: mroL bases)) (runtimeSigs dflt bases)
+  | .mk d bases => sigOf ((addlLookup (d :: mroL bases)).getD dflt) d (fieldsByName (d :: mroL bases))
+      (runtimeSigs dflt bases)
 termination_by structural c => c
 def runtimeSigs (dflt : Bool) : List ClassInfo → List Sig
   | [] => []
@@ -170,16 +193,20 @@ def runtimeSigs (dflt : Bool) : List ClassInfo → List Sig
 termination_by structural bs => bs
 end
 
-/-- `cls._required = list(set(bases_required + required))` (order unspecified) -/
+mutual
+/-- `cls._required = list(set(bases_required + required + inherited_required_constants))` (order unspecified);
+    the third part since fix 82de3b9: a name that is a Constant of the class and is listed in the `_required` of one
+    of its direct bases -/
 def clsRequired (dflt : Bool) : ClassInfo → List String
-  | .mk d bases => (baseInfoOf (runtimeSigs dflt bases)).2 ++ ownRequired d
-
-/-- `getattr(cls, "_additional_properties", default)`: first class of the MRO that declares it -/
-def addlLookup : List Decl → Option Bool
-  | [] => none
-  | d :: rest => match d.addl with
-    | some b => some b
-    | none => addlLookup rest
+  | .mk d bases =>
+    (baseInfoOf (runtimeSigs dflt bases)).2 ++ ownRequiredF d (fieldsByName (d :: mroL bases)) ++
+      (constNames (fieldsByName (d :: mroL bases))).filter (fun n => anyBaseRequires dflt bases n)
+termination_by structural c => c
+def anyBaseRequires (dflt : Bool) : List ClassInfo → String → Bool
+  | [], _ => false
+  | b :: bs, n => (clsRequired dflt b).contains n || anyBaseRequires dflt bs n
+termination_by structural bs => bs
+end
 
 /-- the guard of `Structure.__setattr__` lets a non-field name through -/
 def setattrAllows (dflt : Bool) (c : ClassInfo) : Bool := (addlLookup (mro c)).getD dflt
